@@ -333,6 +333,12 @@ func (d *driver) minimise(seed uint64, draws []Draw, sig string) ([]Draw, int) {
 	return cur, cands
 }
 
+// EnvSeed returns the base seed of this invocation (VERIF_SEED).
+func EnvSeed() uint64 {
+	v, _ := strconv.ParseUint(os.Getenv("VERIF_SEED"), 10, 64)
+	return v
+}
+
 func envInt(name string, def int) int {
 	if v := os.Getenv(name); v != "" {
 		if n, err := strconv.Atoi(v); err == nil {
